@@ -118,6 +118,40 @@ def run(tier):
                            "how": "run harness.tasks.session:session on history_jobs + [job] in one process with the given PYTHONHASHSEED; "
                                   "compare with the job alone in a fresh process"})
         chk.sample({"seed": seed, "order": [k for k, _ in o["result"]]}, limit=3)
+    # ---- several benchmark files in ONE polar.py run (one action object, as polar.main does) versus each file alone
+    cli_groups = []
+    texts_all = [(j["key"], j["text"], j["goals"]) for j in usable if not j["key"].startswith(("func", "reuse"))]
+    for gi in range(0, min(len(texts_all), 9), 3):
+        grp = texts_all[gi:gi + 3]
+        if len(grp) >= 2:
+            cli_groups.append(grp)
+    shared = [["x", 1]], [["x", 2]]
+    gstrs = ["E(x)", "E(x**2)"]
+    multi_tasks = [{"fn": "harness.tasks.analyze:cli_multi", "args": {"texts": [t for _, t, _ in g], "goal_strs": gstrs, "at_n": 3}}
+                   for g in cli_groups]
+    single_tasks = [{"fn": "harness.tasks.analyze:cli_multi", "args": {"texts": [t], "goal_strs": gstrs, "at_n": 3}}
+                    for g in cli_groups for _, t, _ in g]
+    mo = run_tasks(multi_tasks + single_tasks, timeout=(70 if quick else 200) * 3, recycle=1) if (lean_ok and cli_groups) else []
+    multi_out, single_out = mo[:len(multi_tasks)], mo[len(multi_tasks):]
+    si = 0
+    n_cli = 0
+    for g, o in zip(cli_groups, multi_out):
+        singles = single_out[si:si + len(g)]
+        si += len(g)
+        if o["status"] != "ok" or any(s_["status"] != "ok" for s_ in singles):
+            chk.count("cli-multi:" + o["status"])
+            continue
+        for fi, ((key, text, _), pf, s_) in enumerate(zip(g, o["result"], singles)):
+            alone = s_["result"][0]
+            keep = lambda ls: [l for l in ls if not l.startswith("Elapsed")]
+            same = keep(pf["lines"]) == keep(alone["lines"]) and (pf["error"] is None) == (alone["error"] is None)
+            if same:
+                n_cli += 1
+            else:
+                chk.violation(f"polar.py with {len(g)} benchmark files: the output for file #{fi + 1} ({key}) differs from running it alone",
+                              {"files": [t for _, t, _ in g], "goals": gstrs, "file_index": fi, "in_multi_run": pf, "alone": alone,
+                               "how": "harness.tasks.analyze:cli_multi(texts, goal_strs, at_n=3): one ActionFactory action called for every file"})
+    chk.obligation("correspondence:multi-file-cli-run-equals-single-file-runs", lean_ok and (n_cli > 0 or not cli_groups), {"files_equal": n_cli})
     chk.obligation("correspondence:session-results-equal-fresh-process-results", lean_ok and n_same > 0, {"equal": n_same})
     chk.assumptions = ["CPython hashing, lru_cache internals and object-identity reuse are runtime behaviour the model cannot exhibit: partial"]
     return chk.finish(level="proof",
